@@ -266,8 +266,8 @@ def rule_reduce_axis(ctx):
     good = False
     for p in ret_paths(ev):
         for e in p.events:
-            if e.kind == 'store_attr' and e.b == 'axes' and e.c[0] == 'comp' and e.c[2][0] == 'ifexp' and e.c[2][3] == P_('newaxis') \
-                    and e.c[2][1] == T.mkcmp('!=', ('attr', ('elem', ('attr', SELF, 'axes'), e.c[3][0][0]), 'name'), name):
+            if e.kind == 'store_attr' and e.b == 'axes' and e.c[0] == 'comp' and e.c[2][0] == 'ifexp' and e.c[2][2] == P_('newaxis') \
+                    and e.c[2][1] == T.mkcmp('==', ('attr', ('elem', ('attr', SELF, 'axes'), e.c[3][0][0]), 'name'), name):   # canonical: ifexp(a == b, when equal, otherwise)
                 good = True
     if good:
         ctx.holds('R4', 'reduce_axis(keepdims, newaxis=): the axis of that name is the requested one, the others are copies')
